@@ -348,6 +348,15 @@ UNITS = {
         ],
         "contracts": ["contracts/config.vc"],
     },
+    "defaults": {
+        "preludes": ["shims/core.rs", "shims/env.rs", "shims/defaults.rs"],
+        "specs": [],
+        "sources": [
+            SYMBOL_SRC,
+            ("src/entry_point/mod.rs", ["struct:Config", "consts:Config", "fn:set_default_values"]),
+        ],
+        "contracts": ["contracts/defaults.vc"],
+    },
     "urlpath": {
         "preludes": ["shims/core.rs", "shims/bytes.rs", "shims/strslice.rs", "shims/urlpath.rs"],
         "specs": ["contracts/spec/urlpath.rs"],
@@ -394,8 +403,12 @@ def owner(unit, f):
             return "C13"
         if f.fn in ("StaticResourceController::is_matching", "StaticResourceController::is_matching_request") and f.kind == "postcondition":
             return ("C09", "C02")
+        if f.fn == "URL::parse_request_target":
+            return ("C04", "C02")
         if "static_status" in f.snippet:
             return ("C09", "C03", "C02")
+        if "error_status_kept" in f.snippet:
+            return ("C03", "C05", "C02")
         if f.kind in SAFETY_KINDS:
             return "C04"
         # the controller keeps the header frame and a registered status (C10 / C05 / C04); everything else functional is C02
@@ -415,8 +428,20 @@ def owner(unit, f):
         return ("C20", "C04") if f.kind in SAFETY_KINDS else "C16"
     if f.kind == "precondition" and f.snippet.startswith("false@"):
         return "C13"
+    if unit == "defaults":
+        return "C11"
+    if unit == "request_parse":
+        # what the request parser hands on: header values without CR / LF feed the echoed CORS headers and so the response head
+        if f.kind in SAFETY_KINDS:
+            return ("C04", "C20", "C14")
+        if f.fn == "StringExt::truncate_new_line_carriage_return" or "no_crlf" in f.snippet:
+            return ("C14", "C05", "C10")
+        return "C14"
     if unit in ("app", "controllers", "forms", "server", "log"):
         sn = f.snippet.replace(" ", "")
+        # the accessors of a parsed request and the url-encoded body reader are library entry points (C20) that the server uses (C04)
+        if unit == "forms" and (f.fn.startswith("Request::get_") or f.fn == "FormUrlEncoded::parse"):
+            return ("C04", "C20")
         # which target / method a built-in endpoint claims: the lookup (C02) and its independence of GET / HEAD / OPTIONS (C09)
         if f.kind == "postcondition" and (f.fn.endswith("::is_matching") or f.fn.endswith("::is_matching_request")):
             return ("C09", "C02")
@@ -424,9 +449,11 @@ def owner(unit, f):
             return ("C02", "C09")
         if f.kind in SAFETY_KINDS:
             return ("C04", "C20") if unit == "forms" else "C04"
+        if "forwards_unchanged" in sn:
+            return ("C10", "C05", "C03", "C02", "C09", "C11", "C04")
         if "frame_ok" in sn or "std_headers" in sn or "fixed_headers" in sn:
             return ("C10", "C05", "C04")
-        if "registered(" in sn or "is_bad_request" in sn or "response_bytes" in sn or "one_response" in sn or "one_bad_request" in sn or "status_code==404" in sn:
+        if "registered(" in sn or "is_bad_request" in sn or "response_bytes" in sn or "delivered_in_full" in sn or "one_response" in sn or "one_bad_request" in sn or "status_code==404" in sn:
             return ("C05", "C04")
     return None
 
@@ -508,7 +535,7 @@ PROPS = {
         ],
     },
     "C20": {
-        "units": ["response_parse", "range_parse", "base64_decode", "request_parse", "multipart", "json_array", "json_object", "urlpath", "config"],
+        "units": ["response_parse", "range_parse", "base64_decode", "request_parse", "multipart", "json_array", "json_object", "urlpath", "config", "forms"],
         "level": "proof",
         "falsifier": ["parsers", "range", "stack"],
         "always_explore": ["parsers", "stack"],
@@ -599,7 +626,7 @@ PROPS = {
         "assumptions": ["stack depth of the per-header recursion in Request::cursor_read is not expressible (termination is proved, a stack bound is not): with the default 10000-byte request buffer the depth stays below 5000 frames, which fits the 2 MiB worker stack in optimised builds (probed on every C20 run: case c20_stack_request_within_default_buffer must not fire; an unoptimised debug build overflows at about 2000 header lines); a configured buffer of 40 KB or more makes the overflow reachable from the network (known finding listed under C20)"],
     },
     "C10": {
-        "units": ["header_list", "cors", "server", "app", "controllers", "forms", "static", "response_gen"],
+        "units": ["header_list", "cors", "server", "app", "controllers", "forms", "static", "response_gen", "request_parse"],
         "level": "proof",
         "falsifier": ["e2e"],
         "case_prefixes": ["c10_"],
@@ -623,7 +650,7 @@ PROPS = {
         ],
     },
     "C11": {
-        "units": ["cors"],
+        "units": ["cors", "defaults"],
         "level": "proof",
         "falsifier": ["cors"],
         "samples": [
